@@ -449,6 +449,48 @@ def same_id_cases():
     return True
 
 
+def multiply_orchestration_cases():
+    """real graphs: factor -1..4, copy names absent / right / too few / too many / in use / repeated, distribution on and off: refusals
+    leave the text unchanged, otherwise the number of segments grows by factor-1 with the requested names and the counts are divided"""
+    import gfapy
+    base = ["S\ta\t*\tRC:i:12", "S\tb\t*", "S\tc\t*", "L\ta\t+\tb\t+\t*\tRC:i:12\tID:Z:lk", "L\ta\t+\tc\t+\t*", "C\ta\t+\ta\t+\t0\t*"]
+    for factor in (-1, 0, 1, 2, 3, 4):
+        for kind in ("none", "right", "short", "long", "in-use", "twice"):
+            for dist in (None, "auto"):
+                right = ["n%d" % i for i in range(max(factor - 1, 0))]
+                names = {"none": None, "right": right, "short": right[:-1], "long": right + ["x"], "in-use": right[:-1] + ["b"], "twice": (right[:1] * len(right))}[kind]
+                bad = factor >= 2 and (kind in ("short", "long", "in-use") or (kind == "twice" and factor > 2))
+                g = gfapy.Gfa(base)
+                before = str(g)
+                what = "multiply('a', %d, copy_names=%r, distribute=%r)" % (factor, names, dist)
+                try:
+                    g.multiply("a", factor, copy_names=names, distribute=dist)
+                    ok = True
+                except (gfapy.ArgumentError, gfapy.NotUniqueError):
+                    ok = False
+                except Exception as e:
+                    return "%s raised %s" % (what, type(e).__name__)
+                if not ok:
+                    if not (bad or factor < 0):
+                        return "%s was refused" % what
+                    if str(g) != before:
+                        return "%s was refused but the graph changed" % what
+                    continue
+                if bad or factor < 0:
+                    return "%s was accepted" % what
+                if factor == 1 and str(g) != before:
+                    return "%s changed the graph" % what
+                if factor == 0 and ("a" in g.segment_names or len(g.segments) != 2):
+                    return "%s: segments %s" % (what, g.segment_names)
+                if factor >= 2:
+                    new = sorted(set(g.segment_names) - {"a", "b", "c"})
+                    if len(new) != factor - 1 or (names is not None and new != sorted(names)):
+                        return "%s: new segments %s" % (what, new)
+                    if any(g.segment(x).RC != 12 // factor for x in ["a"] + new):
+                        return "%s: counts %s" % (what, [g.segment(x).RC for x in ["a"] + new])
+    return True
+
+
 def link_compatibility_cases():
     """real links against requests (oriented from, oriented to, overlap): stored overlap unspecified / specified, request overlap
     unspecified / equal / the complement / different, request in the direct form, the complement form or another one"""
